@@ -1,5 +1,5 @@
 (* Extraction of the path / file-system model of C19 -- ExtrOcamlBasic only. *)
-From OV Require Import Base.Strs Path.FsTree Path.Realpath Path.PathCheck.
+From OV Require Import Base.Strs Path.FsTree Path.Realpath Path.PyRealpath Path.PathCheck.
 Require Import ExtrOcamlBasic.
 
 (* the SHA-256 oracle is passed as a finite table (bytes, hex digest) computed by the harness *)
@@ -9,4 +9,4 @@ Definition resolve_frozen_tbl (tbl : list (str * str)) := resolve_frozen (table_
 
 Extraction "../ocaml/gen/pathm.ml" extract_anchor mk_fs validate_write validate_validate validate_fileops resolve abs_tail
   p_exists p_is_symlink p_lstat_link p_is_dir late_recheck_write late_recheck_fileops name_ok schema_files schema_candidate parse_frozen frozen_file resolve_frozen_tbl
-  validate_uri realpath rp_fuel has_nul pparse pname suffix suffixes compound_suffix ext_ok trace_write.
+  validate_uri_src uri_complete_src stale_uri_src realpath rp_fuel has_nul pparse pname suffix suffixes compound_suffix ext_ok trace_write.
